@@ -155,6 +155,11 @@ class CommHandler:
 
             _bytes = _bytes[i:]
 
+            if len(_bytes) < self._parse.frame.hdr_len:
+                # hdr candidate not complete yet - keep it and read more
+                self._prev_read = _bytes
+                continue
+
             hdr = self._parse.frame.hdr_decode(data=_bytes)
             if hdr.err is not EParseError.NOERR:  # pragma: no cover
                 # drop 1 byte from buffer
